@@ -737,6 +737,9 @@ ERRORS += [
 ]
 # error sites of the implementation that no earlier class reached (found by line coverage of the quick corpus)
 ERRORS += [
+    ("index-range-stepped-slice", "h q[0:2:4];"), ("index-range-stepped-slice-measure", "c[0:2:4] = measure q[0:2:2];"),
+    ("index-range-stepped-slice-reset", "reset q[1:2:5];"), ("index-range-stepped-slice-alias", "let als2 = q[0:2:6];"),
+    ("index-range-stepped-slice-sub-arg", "s2(q[0:2:4]);"), ("index-range-negative-step-slice", "h q[5:-2:0];"),
     ("constant-as-index", "h q[pi];"), ("sizeof-of-element", AR3 + "int[8] sz = sizeof(ar[0]);"),
     ("unsupported-cast-expression", "rx(int[8](fv)) q[0];"), ("unsupported-duration-literal", "rx(10ns) q[0];"),
     ("formal-qubit-size-zero", "def sz0(qubit[0] a) { } sz0(q[0]);"),
@@ -825,6 +828,10 @@ def scope_cases():
         "gate g a { rx(pi) a; } for int i in [0:1] { g q[i]; }",
         "if (true) { if (true) { {B} } {B} } rx(x) q[0];",
         "if (false) { int[8] x = 2; } else { {B} } rx(x) q[0];",
+        # a formal argument of the same name as a global (constant): blocks of the body read and update the formal
+        "def f(qubit a, int[8] x) { rz(x) a; for int i in [0:1] { {B} rx(x) a; } if (x == 7) { ry(x) a; } else { h a; } } f(q[0], 7);",
+        "def f(qubit a, int[8] x) { if (true) { x = x + 1; {B} } rx(x) a; for int j in [0:0] { if (j == 0) { rz(x) a; } } } f(q[0], 7); f(q[1], 2);",
+        "gate g(x) a { rx(x) a; } def f(qubit a, float[64] x) { if (true) { g(x) a; {B} } } f(q[0], 0.5);",
     ]
     acts = {"read": "rx(x) q[1];", "write": "x = x + 2;", "declare": "int[8] x = 3;", "nothing": "h q[1];", "compound": "x *= 3;"}
     for dn, d in decls.items():
@@ -957,6 +964,14 @@ def repeated_call_cases():
         out.append(H3 + pre + "\n".join(calls[i].replace("r1", "r%d" % k) for k, i in enumerate(seq)) + "\n")
     for seq in itertools.product([0, 1, 4, 5, 6], repeat=3):
         out.append(H3 + pre + "\n".join(calls[i].replace("r1", "r%d" % k) for k, i in enumerate(seq)) + "\n")
+    # subroutines that act on qubits used as operands of larger expressions: every operand's gates appear once, in order
+    ops = ["+", "*", "-", "<", "==", "&", "<<"]
+    for k, op in enumerate(ops):
+        out.append(H3 + pre + "def p1(qubit a) -> int[8] { h a; return 2; }\ndef p2(qubit a) -> int[8] { x a; s a; return 1; }\n"
+                   "int[16] r = p1(q[0]) %s p2(q[1]);\nrx(r) q[2];\nint[16] u = 3 %s p2(q[0]);\nrx(u) q[1];\n"
+                   "int[16] w = (p1(q[2]) %s p2(q[2])) + p1(q[0]);\nrz(w) q[0];\nrx(p2(q[1]) %s p1(q[1])) q[0];\n" % (op, op, op, op))
+    out.append(H3 + pre + "def p1(qubit a) -> bool { h a; return true; }\ndef p2(qubit a) -> bool { x a; return false; }\n"
+               "bool b1 = p1(q[0]) && p2(q[1]);\nbool b2 = p2(q[0]) || p1(q[1]);\nbool b3 = !p1(q[2]);\nif (b1 || b2) { z q[0]; }\nrx(-f(q[0:2], 1)) q[2];\n")
     out.append(H3 + pre + "for int i in [0:2] { inv @ g(i) q[0], q[1]; g(i) q[1], q[2]; }\n")
     out.append(H3 + pre + "for int i in [0:1] { int[8] t = f(q[0:2], i); rx(t) q[2]; }\n")
     return out
@@ -1168,4 +1183,19 @@ def strided_slice_cases():
                     out.append(H3 + "qubit[4] q;\ndef f(mutable array[int[8], #dim=1] v, qubit p) { rx(v[%d]) p; v[0] = 1; }\n" % (n - 1)
                                + "array[int[8], %d] a = {%s};\nf(a[%d:%d:%d], q[0]);\n" % (d, vals, a, st, b)
                                + "".join("rx(a[%d]) q[%d];\n" % (i, i % 4) for i in range(d)))
+    return out
+
+
+def loop_slice_cases():
+    """slices whose bounds depend on the loop variable, in every kind of statement that takes operands: each
+    iteration resolves its own bounds (C02)"""
+    out = []
+    pre = "qubit[6] q;\nbit[6] c;\ndef f(qubit[2] p) { cx p[0], p[1]; }\ndef g1(qubit p) { h p; }\n"
+    stmts = ["f(q[i:i+2]);", "let al = q[i:i+2]; cx al[0], al[1];", "c[i:i+2] = measure q[i:i+2];", "reset q[i:i+2];",
+             "barrier q[i:i+2];", "x q[i:i+2];", "f(q[{i, i + 2}]);", "g1(q[i + 1]);", "reset q[{i, i + 3}];", "measure q[i + 2] -> c[i];"]
+    loops = ["for int i in [0:2] { %s }", "for int i in {3, 0, 2} { %s }", "for int i in [3:-1:1] { %s }", "for int j in [0:1] { for int i in [j:j+1] { %s } }"]
+    for st in stmts:
+        for lp in loops:
+            out.append(H3 + pre + lp % st + "\n")
+            out.append(H3 + pre + "def outer(qubit[6] r, int[8] n) { for int i in [0:n] { %s } }\nouter(q, 1);\nouter(q, 2);\n" % st.replace("q[", "r[").replace("c[i:i+2] = measure r[i:i+2];", "reset r[i:i+2];").replace("measure r[i + 2] -> c[i];", "reset r[i + 2];").replace("f(", "f(").replace("let al = r[i:i+2]; cx al[0], al[1];", "cx r[i], r[i + 1];"))
     return out
